@@ -536,13 +536,50 @@ FOCUS_FAULTS = {"quick": ["-families", "fedfocus", "-n", "3", "-faults", "single
 GATE = {"quick": ["-families", "gate", "-gate", "600", "-shards", "4"], "thorough": ["-families", "gate", "-gate", "0", "-maxruns", "60000", "-shards", "14"]}
 
 
+def c07_concurrent(ctx):
+    """Every request's authentication and block check are about that request, also while others are served: three concurrent
+    inbox deliveries, the second by a blocked actor, under the scheduler of C08 (harness c08 -kinds blocked)."""
+    cdir = os.path.join(ctx.rundir, "concurrent")
+    shutil.rmtree(cdir, ignore_errors=True)
+    os.makedirs(cdir)
+    b = os.path.join(ROOT, "tools", "bin", "harness")
+    rc, out, dt = sh([b, "c08", "-kinds", "blocked", "-sets", "2" if ctx.tier == "quick" else "6", "-bound", "2", "-cap", "150" if ctx.tier == "quick" else "1500",
+                      "-random", "20" if ctx.tier == "quick" else "200", "-shards", "2", "-out", cdir, "-seed", str(ctx.seed), "-tier", ctx.tier], timeout=3000)
+    if rc != 0:
+        ctx.coverage["concurrent_requests"] = {"ran": False, "why": out[-300:]}
+        return False
+    okm, outm, _ = coq_make(ctx, ["Pub/Replay.vo", "Pub/Monitors.vo", "Pub/BaseActor.vo", "Pub/Util.vo"])
+    units = sorted((d for d in glob.glob(os.path.join(cdir, "shard_*")) if os.path.isdir(d)), key=lambda d: int(d.rsplit("_", 1)[1]))
+    found, nsched, flagged = False, 0, 0
+    cases = (json.load(open(os.path.join(cdir, "summary.json"))).get("extra") or {}).get("cases", [])
+    for d in units:
+        shutil.copyfile(os.path.join(ROOT, "coq", "Run", "ConcCases.v"), os.path.join(d, "cases.v"))
+        base = "coqc -Q %s Verif -Q %s Run " % (os.path.join(ROOT, "coq"), d)
+        prc = subprocess.run("%sobserved.v && %scases.v" % (base, base), shell=True, cwd=d, stdout=subprocess.PIPE, stderr=subprocess.STDOUT)
+        o = prc.stdout.decode("utf-8", "replace")
+        if prc.returncode != 0:
+            ctx.violation("C07:concurrent-eval", "the evaluation of the concurrent deliveries failed", {"kind": "cases-eval", "output": o[-2000:], "unchecked": "correspondence C07 concurrent"}, nofail=True)
+            return False
+        off = json.load(open(os.path.join(d, "index.json")))
+        dd = parse_defs(o)
+        nsched += int(re.sub(r"\D", "", dd.get("n_cases", "0").split(":")[0]) or 0)
+        for (i, fields) in parse_idx_tuples(dd.get("conc_bad", "")):
+            flagged += 1
+            c = cases[i + off["case_offset"]] if i + off["case_offset"] < len(cases) else {}
+            if ctx.violation("C07:concurrent:blocked", "three concurrent deliveries, the second by a blocked actor, schedule of %d choices: the blocked actor's activity was not refused without effect (%s)" % (len(c.get("schedule", [])), fields[1]),
+                             {"kind": "schedule", "case": c, "detail": fields}):
+                found = True
+    ctx.coverage["concurrent_requests"] = {"ran": True, "schedules": nsched, "flagged": flagged}
+    return found
+
+
 def check_C07(ctx):
     def classify(name, fields, run):
         return ("C07:%s:%s" % (run["family"], fields[1][:40]), "%s: %s (%s)" % (run["family"], fields[1], run.get("note") or run["result"]))
     return pub_property(ctx, "C07", "Properties/C07.v",
                         ["Pub/BaseActor.v and below (free-monad model of package pub), Pub/Monitors.v gate_step",
                          "modelled, not verified: http.Header.Set is not an observable call; header strings are compared byte for byte; the handler takes no authentication (documented)"],
-                        {"monitors": ["gate_bad"], "classify": classify,
+                        {"monitors": ["gate_bad"], "classify": classify, "extra": c07_concurrent,
                          "rule": "C07 product {entry} x {protocols} x {auth} x {block} x {method} x {12 header variants} x {4 bodies}: covering sample in the quick tier, complete in the thorough tier; plus all std scenarios with single faults"},
                         run_specs=[("gate", GATE[ctx.tier]), ("shape", SHAPE[ctx.tier]), ("again", AGAIN[ctx.tier]), ("std", PUB_STD[ctx.tier])])
 
